@@ -503,3 +503,5 @@ def replay(case):
     return (('after an application with debug=True rendered the first error page of the process: ' if case.get('debug_first') else '') +
             f'{k} error page, payload {case["payload"][:100]!r} injected into {p}, '
             f'{"Accept: application/json" if case["json"] else "HTML"}: {v[1]}')
+
+MANIFEST['text'] += ' JSON is asked for in seven Accept spellings; non-JSON clients send seven other Accept values.'
